@@ -223,9 +223,17 @@ func (n *Node) Tip() *massutil.Block { return n.Chain[len(n.Chain)-1] }
 func (n *Node) Height() uint64 { return uint64(len(n.Chain) - 1) }
 
 func (n *Node) publishHeight() {
-	// the shared Blockchain's reported best height mirrors this node's tip
+	// the shared Blockchain's reported best height mirrors this node's tip. mass-core reads the
+	// field without a lock (it replaces the node under its own lock), so under the race detector
+	// the harness must not write it: there the reported height stays 0 and the wallet catches up
+	// through tip announcements only.
+	if noPublish {
+		return
+	}
 	sharedChain.BestBlockNode().Height = n.Height()
 }
+
+var noPublish = os.Getenv("VERIF_NO_PUBLISH_HEIGHT") != ""
 
 // PublishHeight re-publishes this node's height (used when several nodes alternate in one process).
 func (n *Node) PublishHeight() { n.publishHeight() }
